@@ -1,10 +1,12 @@
-import JokerVerif.Lemmas.McmcLemmas
+import JokerVerif.Lemmas.McmcKernelLemmas
 /-!
 # C11 — MCMC continuation targets the same model and posterior
 
 Property theorems only, over `ℝ` (for every true-anomaly function `ta`, i.e. whatever Kepler solver is used, as
 long as both models call the same one), for all parameter values, epochs, trend orders and numbers of offsets.
 -/
+open Matrix
+
 namespace Mcmc
 
 /-- for any parameter values and any epoch the pymc model predicts the sampler's radial velocity: same phase
@@ -76,7 +78,97 @@ theorem init_single {ρ : Type} (r : ρ) (period : ρ → ℝ) (conv : ρ → ρ
   subst this
   simpa using h
 
+/-! ### the MCMC model and the kernel (C01, C03, C04) are one model -/
+
+/-- **the pymc model's RV is the kernel's design row dotted with the linear parameters**, in design-column order
+`[K, v0, dv0_1.., v1..]`, with the Kepler term the sampler uses — so the matrix `M` of C01/C03/C04 is the Jacobian
+of the chain's RV model in its linear parameters -/
+theorem mcmc_rv_eq_design_row (ta : ℝ → ℝ → ℝ) (p : Par ℝ) (v0 : ℝ) (vtrend : List ℝ) (o : Obs ℝ)
+    (hv : p.v = v0 :: vtrend) (hl : o.label ≤ p.dv.length) (hP : p.P ≠ 0) :
+    mcmcRV (realFn ta) p o =
+      Kernel.rowDot (Kernel.designRow (kepTerm ta p o.x) o.x o.label p.dv.length (vtrend.length + 1))
+        (p.K :: v0 :: (p.dv ++ vtrend)) := by
+  rw [Kernel.design_row_eq_orbit _ _ _ _ _ _ _ _ _ rfl (by simp) hl, mcmc_rv_eq_sampler_rv ta p o hP]
+  unfold samplerRV Kernel.orbitRV trend kepTerm
+  have h1 : polySum o.x p.v 1 = v0 + Kernel.polyFrom o.x 1 vtrend := by
+    rw [hv]
+    have := polySum_eq_polyFrom o.x (v0 :: vtrend) 0
+    simp only [pow_zero] at this
+    rw [this]; simp [Kernel.polyFrom]
+  have h2 : offsetOf p.dv o.label = Kernel.offsetOf p.dv o.label := by
+    cases o.label <;> rfl
+  rw [h1, h2]
+  simp only [realFn_cos, realFn_trueAnom]
+  ring
+
+/-- the pymc model's Gaussian data term, as a multivariate normal with diagonal covariance `σ² + s²` -/
+theorem dataTerm_eq_lnN (ta : ℝ → ℝ → ℝ) (p : Par ℝ) (rv : Par ℝ → Obs ℝ → ℝ) :
+    ∀ {n : ℕ} (obs : Fin n → Obs ℝ), (∀ i, 0 < (obs i).sigma) →
+    dataTerm (realFn ta) p rv (List.ofFn obs) =
+      Kernel.lnN (fun i => (obs i).y) (fun i => rv p (obs i)) (diagonal fun i => (obs i).sigma ^ 2 + p.s ^ 2) := by
+  intro n obs hs
+  have hv : ∀ i, 0 < (obs i).sigma ^ 2 + p.s ^ 2 := fun i => by
+    have := pow_pos (hs i) 2; positivity
+  rw [lnN_diagonal _ _ _ hv]
+  clear hv hs
+  induction n with
+  | zero => simp [dataTerm]
+  | succ n ih =>
+    rw [List.ofFn_succ, Fin.sum_univ_succ]
+    simp only [dataTerm]
+    rw [ih (fun i => obs i.succ)]
+    simp only [lnNormalVar, realFn_log, realFn_pi, pow_two]
+
+/-- **the chain's joint density factorises into the sampler's posterior.**  Take any kernel input `x` whose design
+matrix rows are the design rows of the epochs `obs i` at the nonlinear parameters of `p` (what `design_matrix`
+builds, C04/C08) and whose `y`, `σ`, jitter are those of the pymc model; let `xl` be `p`'s linear parameters in
+design-column order.  Then for every such point
+
+  `ln p_mcmc(y | p) + ln N(xl | μ, Λ) = marginal ln-likelihood of the sampler (C01) + ln N(xl | a, A)` (C03):
+
+the density the MCMC chain explores, with the linear parameters' Normal prior, is exactly (marginal posterior of the
+nonlinear parameters that rejection sampling targets) × (conditional posterior the linear parameters are drawn from). -/
+theorem mcmc_joint_eq_sampler_marginal_times_conditional {n k : ℕ} (ta : ℝ → ℝ → ℝ) (p : Par ℝ)
+    (v0 : ℝ) (vtrend : List ℝ) (obs : Fin n → Obs ℝ) (x : Kernel.KIn n k ℝ) (xl : Fin k → ℝ)
+    (hph : Kernel.Phys x (fun i => (obs i).sigma))
+    (hv : p.v = v0 :: vtrend) (hl : ∀ i, (obs i).label ≤ p.dv.length) (hP : p.P ≠ 0)
+    (hy : ∀ i, vfun x.y i = (obs i).y) (hs : x.s = p.s)
+    (hM : ∀ i, List.ofFn (x.M.toM i) =
+      Kernel.designRow (kepTerm ta p (obs i).x) (obs i).x (obs i).label p.dv.length (vtrend.length + 1))
+    (hxl : List.ofFn xl = p.K :: v0 :: (p.dv ++ vtrend)) :
+    dataTerm (realFn ta) p (mcmcRV (realFn ta)) (List.ofFn obs) + Kernel.lnN xl (vfun x.mu) (diagonal (vfun x.lam))
+      = Kernel.kll x + Kernel.lnN xl (vfun (Kernel.ka x)) (Kernel.kA x).toM := by
+  rw [dataTerm_eq_lnN ta p _ obs hph.sig_pos, ← hs, Kernel.bayes_identity x _ hph xl]
+  have hmean : (fun i => mcmcRV (realFn ta) p (obs i)) = x.M.toM *ᵥ xl := by
+    funext i
+    rw [mcmc_rv_eq_design_row ta p v0 vtrend (obs i) hv (hl i) hP, ← hM i, ← hxl, rowDot_ofFn]
+    rfl
+  have hyy : (fun i => (obs i).y) = vfun x.y := funext fun i => (hy i).symm
+  rw [hmean, hyy]
+  abel
+
 /-! ### non-vacuity -/
+/-! non-vacuity of the factorisation theorem's hypotheses: one epoch, `(K, v0)`, circular orbit -/
+noncomputable def exP : Par ℝ := ⟨1, 0, 0, 0, 1, 3, [2], []⟩
+noncomputable def exObs : Fin 1 → Obs ℝ := fun _ => ⟨0, 0, 5, 1⟩
+noncomputable def exK : Kernel.KIn 1 2 ℝ :=
+  { M := .ofFn fun _ _ => 1, y := #v[5], ivar := #v[1], s := 1, mu := #v[0, 0], lam := #v[1, 1] }
+
+example : Kernel.Phys exK (fun i => (exObs i).sigma) ∧ exP.v = 2 :: [] ∧ (∀ i, (exObs i).label ≤ exP.dv.length)
+    ∧ exP.P ≠ 0 ∧ (∀ i, vfun exK.y i = (exObs i).y) ∧ exK.s = exP.s
+    ∧ (∀ i, List.ofFn (exK.M.toM i) =
+        Kernel.designRow (kepTerm (fun _ _ => 0) exP (exObs i).x) (exObs i).x (exObs i).label exP.dv.length (([] : List ℝ).length + 1))
+    ∧ List.ofFn ![(3 : ℝ), 2] = exP.K :: 2 :: (exP.dv ++ []) := by
+  refine ⟨⟨?_, ?_, ?_⟩, rfl, ?_, ?_, ?_, rfl, ?_, ?_⟩
+  · intro i; simp [exObs]
+  · intro i; fin_cases i; simp [exK, exObs, vfun]
+  · intro j; fin_cases j <;> simp [exK, vfun]
+  · intro i; simp [exObs, exP]
+  · simp [exP]
+  · intro i; fin_cases i; simp [exK, exObs, vfun]
+  · intro i; simp [exK, exObs, exP, kepTerm, Kernel.designRow, List.ofFn_succ]
+  · simp [exP]
+
 example : medianIdx [5, 1, 9, 3] = some 0 := by decide
 example : medianIdx [5, 1, 9, 3, 7] = some 0 := by decide
 example : medianIdx [2, 8, 4] = some 2 := by decide
